@@ -216,6 +216,19 @@ theorem tupleLong_lex :
     (TextReader.sliceTokens bytesTupleLong).out = .end_ := by
   decide +kernel
 
+/-- `a=?b` + newline: an unquoted scalar that begins with `?` -/
+def bytesQuestion : Bytes := [97, 61, 63, 98, 10]
+def tyQuestion : Ty := .st [([97], .str)]
+
+theorem question_differ : bytesDiffer tyQuestion bytesQuestion = true := by decide +kernel
+
+theorem question_parse :
+    TextTape.parse bytesQuestion = .ok [.unquoted ⟨5, [97]⟩, .unquoted ⟨3, [63, 98]⟩] false := by decide +kernel
+
+theorem question_lex :
+    (TextReader.sliceTokens bytesQuestion).toks = [.unquoted [97], .op .eq, .op .exists_, .unquoted [98]] ∧
+    (TextReader.sliceTokens bytesQuestion).out = .end_ := by decide +kernel
+
 theorem mixed_differ : bytesDiffer tyMixed bytesMixed = true := by decide +kernel
 theorem firstImplicit_differ : bytesDiffer tyFirstImplicit bytesFirstImplicit = true := by decide +kernel
 theorem param_differ : bytesDiffer tyParam bytesParam = true := by decide +kernel
